@@ -559,6 +559,35 @@ private theorem handle_inv (o : Ovl) (m : Msg) (h : StoreInv o) : StoreInv (hand
 private theorem localStep_inv (o : Ovl) (l : Local) (h : StoreInv o) : StoreInv (localStep o l) := by
   obtain ⟨h1, h2, h3⟩ := h
   cases l with
+  | reqSend id =>
+    simp only [localStep]
+    split
+    · next hw =>
+      have hs : ¬ (lookup o.store id).isSome = true := by simpa [Ovl.wouldRequest] using hw
+      refine ⟨?_, ?_, ?_⟩
+      · intro id' t hg
+        have : o.get id' = some t := by
+          by_cases hid : id' = id
+          · subst hid; simp [Ovl.get, lookup_insert_self] at hg
+          · simpa [Ovl.get, lookup_insert_ne _ _ _ _ hid] using hg
+        rcases h1 id' t this with h | h
+        · exact Or.inl (List.mem_cons_of_mem _ h)
+        · exact Or.inr h
+      · intro id' hr
+        by_cases hid : id' = id
+        · subst hid; exact List.mem_cons_self
+        · apply List.mem_cons_of_mem
+          apply h2
+          simpa [Ovl.isRequested, lookup_insert_ne _ _ _ _ hid] using hr
+      · intro rid sl tm hl hm; exact List.mem_cons_of_mem _ (h3 rid sl tm hl hm)
+    · exact ⟨h1, h2, h3⟩
+  | reqFail id =>
+    simp only [localStep]
+    split
+    · exact ⟨fun id' t hg => (h1 id' t hg).elim (fun h => Or.inl (List.mem_cons_of_mem _ h)) Or.inr,
+        fun id' hr => List.mem_cons_of_mem _ (h2 id' hr),
+        fun rid sl tm hl hm => List.mem_cons_of_mem _ (h3 rid sl tm hl hm)⟩
+    · exact ⟨h1, h2, h3⟩
   | request id =>
     simp only [localStep]
     refine ⟨?_, ?_, ?_⟩
@@ -738,8 +767,9 @@ theorem c06_shape_TreeMarshal_MakeTree :
 
 theorem c06_shape_TreeMarshal_MakeTreeFromList :
     Shapes.tree_TreeMarshal_MakeTreeFromList =
-   ["ro.Search", "if:(idx<0)", "return:nil,xerrors.New(\"\")", "c.MakeTreeFromList",
-     "if:(err!=nil)", "return:nil,xerrors.Errorf(\"\",err)", "return:tn,nil"] := rfl
+   ["ro.Search", "if:(idx<0)", "return:nil,xerrors.New(\"\")", "if:(ent.Public==nil)",
+     "return:nil,xerrors.New(\"\")", "c.MakeTreeFromList", "if:(err!=nil)",
+     "return:nil,xerrors.Errorf(\"\",err)", "return:tn,nil"] := rfl
 
 theorem c06_shape_Overlay_handleSendTree :
     Shapes.overlay_Overlay_handleSendTree =
